@@ -128,6 +128,11 @@ def r2_return(ctx):
                     if t in subs:
                         continue
                     v = s.value
+                    if isinstance(v, ast.IfExp):
+                        if any(isinstance(x, ast.Name) and x.id in subs for x in (v.body, v.orelse)):
+                            subs.add(t)
+                            changed = True
+                        continue
                     direct = (isinstance(v, ast.Name) and v.id in subs) or (
                         isinstance(v, ast.Call) and callee_last(v) in ("drop_invalid_rows", "copy", "collect", "lazy") and any(
                             isinstance(a, ast.Name) and a.id in subs for a in v.args))
